@@ -89,7 +89,7 @@ class Explorer:
                     self.pseudo.setdefault(name, body[0].value.attr)
 
     # ------------------------------------------------------------------ public API
-    def explore(self, fn, qual, param_vals=None):
+    def explore(self, fn, qual, param_vals=None, assume=None):
         """Return list of (Path, exit_kind) for all feasible paths of method `fn` ('normal' | 'raise')."""
         env = {}
         args = fn.args
@@ -107,7 +107,9 @@ class Explorer:
             env[args.kwarg.arg] = Val(deps=[("param", args.kwarg.arg)])
         frame = Frame(fn, self.ci, env, selfnames, 0, qual)
         out = []
-        for p, kind in self._block_s(fn.body, Path(), frame):
+        start = Path()
+        start.assign.update(assume or {})
+        for p, kind in self._block_s(fn.body, start, frame):
             out.append((p, "normal" if kind in ("fall", "return") else kind))
             self.paths_explored += 1
             if self.paths_explored > MAX_PATHS:
